@@ -128,4 +128,22 @@ def stratifiedPsi (strata : List (F × List (SRow F))) : F :=
   sumBy (fun s => wTot s.2 * s.1 * (((1 : Nat) : F) - s.1) * (yTrt s.2 - yUnt s.2)) strata /
   sumBy (fun s => wTot s.2 * s.1 * (((1 : Nat) : F) - s.1)) strata
 
+/-! ### the H(psi) terms of the search solver (`_grid_search_`: how the terms of the structural model are rewritten)
+
+A term of the structural nested model is a product of factors, `w.split(':')`; names are numbered (`Nat`).  zEpid
+replaces the treatment's name by the scratch column `H_psi` *factor by factor* (`hTerm`); the column patsy then
+builds for a product term is the product of its factors' values in the row (`termVal`). -/
+
+/-- `':'.join('H_psi' if f == treatment else f for f in w.split(':'))` -/
+def hTerm (treat h : Nat) (term : List Nat) : List Nat := term.map fun f => if f = treat then h else f
+
+/-- the row's values with the scratch column `h` holding `H` (`data['H_psi'] = snm`) -/
+def envH (env : Nat → F) (h : Nat) (H : F) : Nat → F := fun n => if n = h then H else env n
+
+/-- value of a product term in a row -/
+def termVal (env : Nat → F) (term : List Nat) : F := term.foldr (fun f acc => env f * acc) ((1 : Nat) : F)
+
+/-- the term without (the first occurrence of) the treatment: the effect modifier(s) it is multiplied with -/
+def modifiers (treat : Nat) (term : List Nat) : List Nat := term.erase treat
+
 end ZV.Snm
